@@ -277,8 +277,8 @@ class TypeScriptCallTracker(TypeScriptBaseAnalyzer):  # thailint: ignore[srp]
             string_value = self._extract_string_value(child)
             if string_value is not None:
                 self._add_pattern(node, function_name, param_index, string_value)
-            # Only count actual arguments, not punctuation
-            if child.type not in ("(", ")", ","):
+            # Only count actual arguments, not punctuation or comments between them
+            if child.type not in ("(", ")", ",", "comment"):
                 param_index += 1
 
     def _find_arguments_node(self, node: Node) -> Node | None:
